@@ -328,7 +328,9 @@ func (d *dec) denseLinks(o *Object, fheapAddr, nameBT, corderBT uint64) {
 			if got := checksum([]byte(l.Name)); got != hash {
 				d.fail("B-tree v2 at 0x%x (link name index of %s): record #%d stores hash 0x%08x, lookup3 of the link name %q is 0x%08x", d.abs(nameBT), o.Path, i, hash, l.Name, got)
 			}
-			if i > 0 && (hash < prevHash || (hash == prevHash && !(prevName < l.Name))) {
+			if i > 0 && hash == prevHash && !(prevName < l.Name) {
+				d.deviate("btree2-equal-hash-order", "B-tree v2 at 0x%x (link name index of %s): records #%d and #%d share the hash 0x%08x and are not in name order (%q, %q)", d.abs(nameBT), o.Path, i-1, i, hash, prevName, l.Name)
+			} else if i > 0 && hash < prevHash {
 				d.fail("B-tree v2 at 0x%x (link name index of %s): record #%d (hash 0x%08x, %q) does not sort after record #%d (hash 0x%08x, %q)", d.abs(nameBT), o.Path, i, hash, l.Name, i-1, prevHash, prevName)
 			}
 			if seen[l.Name] {
